@@ -168,6 +168,10 @@ class HistGen(object):
     def fam_filter(self):
         """filters that often match several documents"""
         x = self.r.random()
+        if x < 0.12:
+            # an operator condition on _id that several documents satisfy
+            return {'_id': self.r.choice([{'$in': [0, 1, 2, 3, 'a']}, {'$gte': 0}, {'$ne': 'zz'},
+                                           {'$nin': [7]}, {'$exists': True}])}
         if x < 0.3:
             return {}
         if x < 0.6:
